@@ -7,6 +7,7 @@ import (
 	"sync"
 	"time"
 
+	"github.com/StephenButtolph/canoto"
 	"github.com/ava-labs/avalanchego/utils/logging"
 	"github.com/ava-labs/avalanchego/utils/timer"
 	"go.uber.org/zap"
@@ -93,7 +94,9 @@ func (m *MessageBuffer) Send(msg []byte) error {
 		return ErrClosed
 	}
 
-	l := len(msg)
+	// Account for the size the message takes inside of the encoded batch
+	// (tag + length prefix + payload), so that a batch never exceeds [maxSize].
+	l := len(canoto__BatchMessage__Messages__tag) + int(canoto.SizeBytes(msg))
 	if l > m.maxSize {
 		return ErrMessageTooLarge
 	}
